@@ -72,6 +72,7 @@ HARNESSES = {
         "files": ["harness/grpcgcp/zz_verif_pool_test.go"], "rewrite": "vclock",
         "corpus_glob": "*.ops", "corpus_dirs": ["C01", "C02", "C03", "C04", "C05", "C06", "C07", "C08", "C09", "C20"],
         "episode_start": r"^pool cfg ",
+        "noop_ops": {"C20": r"^pool reserr"},   # operations that, by the property, change nothing (metamorphic search)
         "tiers": {"quick": {"episodes": 1500, "nops": 60}, "thorough": {"episodes": 6000, "nops": 80, "seeds": 8}},
     },
     "me": {
@@ -239,13 +240,14 @@ PROPS = {
                 ["counters_exact", "pool_connections_only", "tables_run", "published_matches_pool", "err_picker_iff_tf", "pub_run"]] +
                 [("GcpVerif.Proofs.PoolReady", "GcpVerif.Pool." + n) for n in
                  ["picker_ready_list", "rdy_run", "publish_on_change", "unknown_connection_ignored", "th_run"]] +
-                [("GcpVerif.Proofs.PoolStages", "GcpVerif.Pool.lift_step")],
+                [("GcpVerif.Proofs.PoolStages", "GcpVerif.Pool.lift_step"), ("GcpVerif.Proofs.Ties", "GcpVerif.Ties.balancer_callbacks_hold_lock")],
                 leanchecker=["GcpVerif.Proofs.PoolPublish", "GcpVerif.Proofs.PoolReady"]),
     "C05": dict(pool_prop([]), theorems=[("GcpVerif.Proofs.PoolTables", "GcpVerif.Pool." + n) for n in
                 ["pool_connections_only", "tables_run"]] + [("GcpVerif.Proofs.PoolValid", "GcpVerif.Pool." + n) for n in
                 ["pool_never_panics", "slots_exist", "valid_run"]] +
                 [("GcpVerif.Proofs.KeyPath", "GcpVerif.KeyPath." + n) for n in
-                 ["keys_eq_follow", "nil_is_error", "nil_nested_is_error", "empty_slice_no_keys", "missing_field_error", "non_struct_error"]],
+                 ["keys_eq_follow", "nil_is_error", "nil_nested_is_error", "empty_slice_no_keys", "missing_field_error", "non_struct_error"]] +
+                [("GcpVerif.Proofs.Sync", "GcpVerif.Sync." + n) for n in ["locksetOK_sound", "c10_lockset"]],
                 harnesses=["pool", "kp"], trusted_base=POOL_TB + [t for t in KP_TB if t not in TB_COMMON]),
     "C06": pool_prop_plus([], [("GcpVerif.Proofs.Sync", "GcpVerif.Sync.c06_no_self_acquire"), ("GcpVerif.Proofs.Sync", "GcpVerif.Sync.c06_order_acyclic"),
                                 ("GcpVerif.Proofs.SyncOrder", "GcpVerif.Sync.no_wait_cycle"), ("GcpVerif.Proofs.SyncOrder", "GcpVerif.Sync.c06_order_certified"),
@@ -254,6 +256,7 @@ PROPS = {
                 [("GcpVerif.Proofs.PoolRefresh", "GcpVerif.Pool." + n) for n in ["one_replacement_per_slot", "refr_run", "refresh_in_progress_noop", "swap_takes_over"]] +
                 [("GcpVerif.Proofs.PoolKeys", "GcpVerif.Pool.stable_swap")] +
                 [("GcpVerif.Proofs.Tas", "GcpVerif.Tas." + n) for n in ["one_winner", "split_two_winners", "refresh_test_and_set_atomic"]] +
+                [("GcpVerif.Proofs.Ties", "GcpVerif.Ties.balancer_callbacks_hold_lock")] +
                 [("GcpVerif.Proofs.PoolDetector", "GcpVerif.Pool." + n) for n in ["detector_quiet", "detector_done", "detector_done_unknown", "detector_scs", "refresh_det"]] +
                 [("GcpVerif.Proofs.PoolStages", "GcpVerif.Pool.lift_quiet")]),
     "C08": dict(pool_prop([]), theorems=pool_thms(["fallback_sticky", "fallback_new", "bound_ready_home", "lookup_preserves_binding"]) +
@@ -264,7 +267,7 @@ PROPS = {
                 ["rr_fair", "rr_fair_nowrap", "window_hits_once", "rrSlot_early", "rr_cursor", "pickRR_assigns", "rr_unfair_at_wrap"]] +
                 [("GcpVerif.Proofs.Ties", "GcpVerif.Ties.rr_cursor_atomic_add")] +
                 [("GcpVerif.Proofs.PoolRRWait", "GcpVerif.Pool." + n) for n in ["no_ready_waiter", "no_ready_waiter_run", "wake_leaves_unready"]]),
-    "C20": dict(pool_prop(["resolver_error_identity"]), theorems=pool_thms(["resolver_error_identity"]) + [("GcpVerif.Proofs.Ties", "GcpVerif.Ties.resolver_error_only_logs")]
+    "C20": dict(pool_prop(["resolver_error_identity"]), theorems=pool_thms(["resolver_error_identity"]) + [("GcpVerif.Proofs.Ties", "GcpVerif.Ties.resolver_error_only_logs"), ("GcpVerif.Proofs.Ties", "GcpVerif.Ties.balancer_callbacks_hold_lock")]
                 + [("GcpVerif.Proofs.PoolAddrs", "GcpVerif.Pool." + n) for n in ["addrs_current", "addrsCur_run", "ccs_connects_all", "ccs_sets_addrs"]]),
     "C13": {
         "harnesses": ["me"], "lake_targets": ["GcpVerif"],
